@@ -7,6 +7,7 @@ import Proofs.C04_Reps
 import Proofs.C04_Index
 import Proofs.C04_Count
 import Proofs.C04_Identity
+import Proofs.C04_Accept
 import Mathlib.Tactic.Ring
 import Mathlib.Tactic.Linarith
 import Mathlib.Tactic.Positivity
@@ -301,7 +302,7 @@ theorem rotate_lattice_index (U : M3 Int) (hU : M3.det U ≠ 0) (s : V3 K) :
     * and contains *every* periodic image `a.pos + n·V`, `n ∈ ℤ³`, that lies in the new half-open cell
       (the bounding supercell `corners ∓ 1` misses none). -/
 theorem rotate_count (fl : K → Int) (hfl : ∀ x, fl x = ⌊x⌋) (b : Box K) (hV : M3.det b.vects ≠ 0) (U : M3 Int)
-    (atoms : List (Atom K)) (hin : ∀ a ∈ atoms, InCell (b.cartToRel a.pos)) (nb : Box K) (kept : List (Atom K))
+    (atoms : List (Atom K)) (hin : ∀ a ∈ atoms, InBox (b.cartToRel a.pos)) (nb : Box K) (kept : List (Atom K))
     (h : rotateRaw fl b U atoms = some (nb, kept)) :
     kept.Perm (atoms.flatMap (imagesOf fl b U)) ∧
     ∀ a ∈ atoms,
@@ -335,7 +336,7 @@ theorem rotate_count (fl : K → Int) (hfl : ∀ x, fl x = ⌊x⌋) (b : Box K) 
 /-- **Atom count** `natoms · |det U|` — the code's own expected-count test
     (`newnatoms = round(newvolume / volume) · natoms`) always passes. -/
 theorem rotate_total (fl : K → Int) (hfl : ∀ x, fl x = ⌊x⌋) (b : Box K) (hV : M3.det b.vects ≠ 0) (U : M3 Int)
-    (atoms : List (Atom K)) (hin : ∀ a ∈ atoms, InCell (b.cartToRel a.pos)) (nb : Box K) (kept : List (Atom K))
+    (atoms : List (Atom K)) (hin : ∀ a ∈ atoms, InBox (b.cartToRel a.pos)) (nb : Box K) (kept : List (Atom K))
     (h : rotateRaw fl b U atoms = some (nb, kept)) :
     kept.length = (M3.det U).natAbs * atoms.length :=
   rotateRaw_length fl hfl b hV U atoms hin nb kept h
@@ -343,7 +344,7 @@ theorem rotate_total (fl : K → Int) (hfl : ∀ x, fl x = ⌊x⌋) (b : Box K) 
 /-- with the expected-count test in the model: `rotate` never raises "Filtering failed" for atoms inside a
     non-degenerate box, and returns what `rotateRaw` returns; the only refusal is `det U = 0`. -/
 theorem rotate_check_passes (fl : K → Int) (hfl : ∀ x, fl x = ⌊x⌋) (b : Box K) (hV : M3.det b.vects ≠ 0) (U : M3 Int)
-    (hU : M3.det U ≠ 0) (atoms : List (Atom K)) (hin : ∀ a ∈ atoms, InCell (b.cartToRel a.pos)) :
+    (hU : M3.det U ≠ 0) (atoms : List (Atom K)) (hin : ∀ a ∈ atoms, InBox (b.cartToRel a.pos)) :
     ∃ kept, rotateRaw fl b U atoms = some (⟨newVects U b.vects, ⟨0, 0, 0⟩⟩, kept) ∧
       rotateChecked fl b U atoms = .ok (⟨newVects U b.vects, ⟨0, 0, 0⟩⟩, kept) ∧
       kept.length = (M3.det U).natAbs * atoms.length := by
@@ -358,7 +359,7 @@ theorem rotate_check_passes (fl : K → Int) (hfl : ∀ x, fl x = ⌊x⌋) (b : 
     (cell re-expressed at the Cartesian origin, every atom moved by whole cell vectors into it); for atoms inside
     the box this is, up to the order of the atoms, what the bounding-supercell path returns. -/
 theorem rotate_identity_shortcut (fl : K → Int) (hfl : ∀ x, fl x = ⌊x⌋) (b : Box K) (hV : M3.det b.vects ≠ 0)
-    (atoms : List (Atom K)) (hin : ∀ a ∈ atoms, InCell (b.cartToRel a.pos)) :
+    (atoms : List (Atom K)) (hin : ∀ a ∈ atoms, InBox (b.cartToRel a.pos)) :
     rotate fl b M3.one atoms = .ok (rotateIdentity fl b atoms) ∧
     ∃ kept, rotateChecked fl b M3.one atoms = .ok ((rotateIdentity fl b atoms).1, kept) ∧
       kept.Perm (rotateIdentity fl b atoms).2 := by
@@ -373,7 +374,7 @@ theorem rotate_identity_shortcut (fl : K → Int) (hfl : ∀ x, fl x = ⌊x⌋) 
 /-- `rotate` (the whole model: shortcut, supercell, filter, count test) succeeds for every integer `U` with
     `det U ≠ 0` on atoms inside a non-degenerate box, and returns `|det U| · natoms` atoms. -/
 theorem rotate_ok (fl : K → Int) (hfl : ∀ x, fl x = ⌊x⌋) (b : Box K) (hV : M3.det b.vects ≠ 0) (U : M3 Int)
-    (hU : M3.det U ≠ 0) (atoms : List (Atom K)) (hin : ∀ a ∈ atoms, InCell (b.cartToRel a.pos)) :
+    (hU : M3.det U ≠ 0) (atoms : List (Atom K)) (hin : ∀ a ∈ atoms, InBox (b.cartToRel a.pos)) :
     ∃ r, rotate fl b U atoms = .ok r ∧ r.2.length = (M3.det U).natAbs * atoms.length := by
   by_cases h1 : U = M3.one
   · subst h1
@@ -389,7 +390,7 @@ theorem rat_floor_eq (x : ℚ) : Rat.floor x = ⌊x⌋ := rfl
 
 /-- the count for the executable model as the driver runs it (`K = ℚ`, `fl = Rat.floor`). -/
 theorem rotate_total_rat (b : Box ℚ) (hV : M3.det b.vects ≠ 0) (U : M3 Int)
-    (atoms : List (Atom ℚ)) (hin : ∀ a ∈ atoms, InCell (b.cartToRel a.pos)) (nb : Box ℚ) (kept : List (Atom ℚ))
+    (atoms : List (Atom ℚ)) (hin : ∀ a ∈ atoms, InBox (b.cartToRel a.pos)) (nb : Box ℚ) (kept : List (Atom ℚ))
     (h : rotateRaw Rat.floor b U atoms = some (nb, kept)) :
     kept.length = (M3.det U).natAbs * atoms.length :=
   rotate_total Rat.floor rat_floor_eq b hV U atoms hin nb kept h
@@ -410,5 +411,15 @@ example : (M3.det (⟨⟨1, 1, 0⟩, ⟨-1, 1, 0⟩, ⟨0, 0, 1⟩⟩ : M3 Int))
 example : InCell ((⟨M3.one, ⟨-5/2, 7/4, 0⟩⟩ : Box ℚ).cartToRel ⟨-2, 9/4, 1/2⟩) := by
   simp only [InCell, Box.cartToRel, Box.recip, M3.inv, M3.one, M3.transpose, M3.mulVec, M3.det, V3.dot, V3.cross]
   norm_num
+
+/-- the hypothesis `InBox` admits atoms listed on the far faces (relative coordinate 1): the same cell with its second
+    atom stored at relative `(1, 1/2, 1)` still yields 4 kept atoms. -/
+example : InBox ((⟨M3.one, ⟨-5/2, 7/4, 0⟩⟩ : Box ℚ).cartToRel ⟨-3/2, 9/4, 1⟩) := by
+  simp only [InBox, Box.cartToRel, Box.recip, M3.inv, M3.one, M3.transpose, M3.mulVec, M3.det, V3.dot, V3.cross]
+  norm_num
+example : ∃ nb kept, rotateRaw Rat.floor (⟨M3.one, ⟨-5/2, 7/4, 0⟩⟩ : Box ℚ) ⟨⟨1, 1, 0⟩, ⟨-1, 1, 0⟩, ⟨0, 0, 1⟩⟩
+    [⟨1, ⟨-5/2, 7/4, 0⟩, []⟩, ⟨2, ⟨-3/2, 9/4, 1⟩, [3]⟩] = some (nb, kept) ∧ kept.length = 4 := by
+  refine ⟨_, _, rfl, ?_⟩
+  decide +kernel
 
 end Atomman.C04
